@@ -5,6 +5,7 @@ package main
 import (
 	"fmt"
 	"go/token"
+	"go/types"
 	"strings"
 
 	"golang.org/x/tools/go/ssa"
@@ -767,4 +768,111 @@ func listingLoop(p *Prog, r *Report, rule string, m mgrSpec, which string, fn *s
 		}
 	}
 	r.Check(rule, base, ok && n == 1, p.InstrPos(app), fmt.Sprintf("listing loop appends an entry under %d condition(s): %s", n, detail))
+}
+
+// reportedListRule (C08/C09): the list reported to a peer is rendered from that peer's registry entries — each
+// reported entry takes its id from the entry's Id, its server address from the entry's server feature and its client
+// address from the entry's client feature; the entries rendered are those of the per-device listing for the
+// requesting device.
+func reportedListRule(p *Prog, r *Report, rule string, m mgrSpec, dataType, idField string) {
+	n := 0
+	for _, fn0 := range p.ScopeRoots("spine") {
+		fn := fn0
+		p.InScope(fn, func() {
+			for _, body := range append(p.ScopeFns(fn), anonsOf(fn)...) {
+				for _, b := range body.Blocks {
+					for _, ins := range b.Instrs {
+						al, ok := ins.(*ssa.Alloc)
+						if !ok || !isNamed(derefType(al.Type()), "model", dataType) || al.Referrers() == nil {
+							continue
+						}
+						got := map[string]string{}
+						for _, ref := range *al.Referrers() {
+							fa, ok := ref.(*ssa.FieldAddr)
+							if !ok || fa.Referrers() == nil {
+								continue
+							}
+							for _, r2 := range *fa.Referrers() {
+								if st, ok := r2.(*ssa.Store); ok && st.Addr == ssa.Value(fa) {
+									v := st.Val
+									// util.Ptr(T(x)): the value pointed to
+									if c, isC := v.(*ssa.Call); isC && len(c.Call.Args) == 1 && !c.Call.IsInvoke() {
+										if pt, isP := c.Type().Underlying().(*types.Pointer); isP && types.Identical(pt.Elem(), c.Call.Args[0].Type()) {
+											v = c.Call.Args[0]
+										}
+									}
+									got[fieldOfAddr(fa).Name()] = Path(stripConv(v))
+								}
+							}
+						}
+						if len(got) == 0 {
+							continue
+						}
+						n++
+						base := FnName(fn) + "|" + dataType
+						okId := strings.HasSuffix(got[idField], ".Id")
+						okSrv := strings.HasSuffix(got["ServerAddress"], ".ServerFeature.Address()")
+						okCli := strings.HasSuffix(got["ClientAddress"], ".ClientFeature.Address()")
+						// same entry for all three
+						root := func(s, suffix string) string { return strings.TrimSuffix(s, suffix) }
+						same := root(got[idField], ".Id") == root(got["ServerAddress"], ".ServerFeature.Address()") && root(got[idField], ".Id") == root(got["ClientAddress"], ".ClientFeature.Address()")
+						r.Check(rule, base+"|wiring", okId && okSrv && okCli && same, p.InstrPos(al), fmt.Sprintf("reported entry {%s: %s, ServerAddress: %s, ClientAddress: %s}", idField, got[idField], got["ServerAddress"], got["ClientAddress"]))
+					}
+				}
+			}
+		})
+	}
+	r.Floor(rule, "renderers of "+dataType, n, 1)
+}
+
+func anonsOf(fn *ssa.Function) []*ssa.Function {
+	var res []*ssa.Function
+	for _, a := range fn.AnonFuncs {
+		res = append(res, a)
+		res = append(res, anonsOf(a)...)
+	}
+	return res
+}
+
+// outcomeForwardedRule (C08/C09): the node-management handlers hand the outcome of the manager's Add/Remove back to
+// their caller — the error decides between the success and the error result; an outcome that is dropped turns a
+// refused request (a delete of an entry that does not exist) into an acknowledged one.
+func outcomeForwardedRule(p *Prog, r *Report, rule string, m mgrSpec) {
+	iface := p.LookupIface("api", m.Type+"Interface")
+	if iface == nil {
+		r.Undecided(rule, "anchor:api."+m.Type+"Interface", "", "interface not found")
+		return
+	}
+	n := 0
+	for _, fn0 := range p.ScopeRoots("spine") {
+		fn := fn0
+		if fn.Signature.Recv() != nil && implementsIface(fn.Signature.Recv().Type(), iface) {
+			continue // the manager's own methods
+		}
+		p.InScope(fn, func() {
+			forEachCall(fn, func(site ssa.CallInstruction) {
+				c, ok := site.(*ssa.Call)
+				if !ok || !(calleeIsIfaceMethod(&c.Call, iface, m.Add) || calleeIsIfaceMethod(&c.Call, iface, m.Remove)) {
+					return
+				}
+				if c.Parent().Signature.Results().Len() == 0 {
+					return
+				}
+				n++
+				returned := false
+				t := forwardTaint(c)
+				for _, b := range c.Parent().Blocks {
+					if ret, isRet := b.Instrs[len(b.Instrs)-1].(*ssa.Return); isRet {
+						for _, res := range ret.Results {
+							if t[res] {
+								returned = true
+							}
+						}
+					}
+				}
+				r.Check(rule, fmt.Sprintf("%s|%s", FnName(c.Parent()), c.Call.Method.Name()), returned, p.InstrPos(c), "the outcome of the registry operation is returned to the dispatcher (it decides between success and error result)")
+			})
+		})
+	}
+	r.Floor(rule, "calls of "+m.Add+"/"+m.Remove+" outside the manager", n, 2)
 }
